@@ -23,6 +23,7 @@ type nativeCase struct {
 	Params  map[string]int         `json:"params"`
 	Known   map[string]bool        `json:"known"`
 	Scale   int                    `json:"scale,omitempty"` // every symbolic byte string is repeated Scale times (short-read replays)
+	PadTo   int                    `json:"pad_to,omitempty"` // every non-empty symbolic byte string is repeated up to exactly PadTo bytes
 }
 
 type nativeAssert struct {
@@ -243,6 +244,29 @@ func cmdCheck(args []string) int {
 					nc.Scale = 20000
 				}
 			}
+			var sweep []nativeCase
+			for _, n := range v.Notes {
+				if strings.HasPrefix(n, "eof-split") {
+					// the counterexample relies on io.EOF arriving separately from the last bytes: real inflaters do that only
+					// when the stream ends exactly at a window boundary, so the replay sweeps the payload length across one
+					for l := 32768 - 40; l <= 32768; l++ {
+						c := nc
+						c.Scale, c.PadTo = 0, l
+						sweep = append(sweep, c)
+					}
+				}
+			}
+			if len(sweep) > 0 {
+				if sres, serr := runNative(*repoDir, *verDir, r.Spec.Pkg, sweep); serr == nil {
+					for i, sr := range sres {
+						for _, a := range sr.Asserts {
+							if !a.OK && a.Msg == v.Msg {
+								nc = sweep[i]
+							}
+						}
+					}
+				}
+			}
 			nres, err := runNative(*repoDir, *verDir, r.Spec.Pkg, []nativeCase{nc})
 			confirmed := false
 			detail := ""
@@ -265,7 +289,7 @@ func cmdCheck(args []string) int {
 			if confirmed {
 				os.MkdirAll(replayDir, 0o755)
 				body, _ := json.MarshalIndent(map[string]interface{}{"property": *prop, "harness": r.Spec.Pkg + ":" + r.Spec.Func, "assert": v.Msg,
-					"inputs": v.Inputs, "params": r.Spec.Params, "known": cfg.Known, "native": detail, "notes": v.Notes, "scale": nc.Scale}, "", " ")
+					"inputs": v.Inputs, "params": r.Spec.Params, "known": cfg.Known, "native": detail, "notes": v.Notes, "scale": nc.Scale, "pad_to": nc.PadTo}, "", " ")
 				dig := fmt.Sprintf("%x", sha256.Sum256(body))[:12]
 				path := filepath.Join(replayDir, fmt.Sprintf("%s-%s.json", *prop, dig))
 				os.WriteFile(path, body, 0o644)
@@ -446,13 +470,14 @@ func cmdReplay(args []string) int {
 		Params   map[string]int         `json:"params"`
 		Known    map[string]bool        `json:"known"`
 		Scale    int                    `json:"scale"`
+		PadTo    int                    `json:"pad_to"`
 	}
 	if err := json.Unmarshal(b, &rec); err != nil {
 		fmt.Println(err)
 		return 2
 	}
 	parts := strings.SplitN(rec.Harness, ":", 2)
-	res, err := runNative("/repo", "/verif", parts[0], []nativeCase{{Harness: parts[1], Inputs: rec.Inputs, Params: rec.Params, Known: rec.Known, Scale: rec.Scale}})
+	res, err := runNative("/repo", "/verif", parts[0], []nativeCase{{Harness: parts[1], Inputs: rec.Inputs, Params: rec.Params, Known: rec.Known, Scale: rec.Scale, PadTo: rec.PadTo}})
 	if err != nil || len(res) != 1 {
 		fmt.Println("replay could not run:", err)
 		return 2
